@@ -47,3 +47,11 @@ Definition with_seg (st : state) : bool := match seg st with Some _ => true | No
 Definition construct_any (r0 : state) (ctrk clin : list (list Z)) (extra : list Z) : state :=
   let st1 := fold_left (ctor_step ctrk clin) (ctor_keys (with_seg r0)) (scan_books r0) in
   fold_left (fun st k => match enable_features st [k] true ctrk clin with Ok _ s => s | Err _ s => s end) extra st1.
+
+(* ---- Tracks.__init__ with a prepared FeatureDict (features=...): _activate_features_from_dict.
+   The registry is the caller's; every registered key that some annotator can manage is activated
+   WITHOUT computation (the values on the graph are taken at face value); nothing is computed. ---- *)
+Definition activate_from_dict (st : state) : state :=
+  fold_left (fun s k => if memz k (available s) then upd_ft s (set_flags (ft s) [k] true) else s)
+            (reg_node (ft st) ++ reg_edge (ft st)) st.
+Definition construct_dict (r0 : state) : state := activate_from_dict (scan_books r0).
